@@ -469,6 +469,15 @@ func runC10(c *core.Ctx) {
 			for i := 0; i < 262; i++ {
 				k.goit("branch", fmt.Sprintf("n%03d", (i*37)%262))
 			}
+			// ... and beyond a thousand (created without a snapshot per command, then judged from here on)
+			for i := 0; i < 800; i++ {
+				w.SB.Run(c.Goit, []string{"branch", fmt.Sprintf("t%04d", (i*331)%800)}, sandbox.RunOpts{})
+			}
+			c.Eval(800)
+			w.Invalidate()
+			k.goit("branch", "t0014")
+			k.goit("switch", "t0799")
+			k.goit("branch", "-d", "t0000")
 			k.goit("branch", "--list")
 			k.goit("switch", "n255")
 			k.goit("branch", "-d", "n000")
@@ -661,7 +670,7 @@ func runC14(c *core.Ctx) {
 				}
 				id = cm.Parents[0]
 			}
-			ks := []int{0, 1, chainLen - 1, chainLen, chainLen + 1, 5, 100}
+			ks := []int{0, 1, chainLen - 1, chainLen, chainLen + 1, 5, 100, 2147483647, 2147483648, 4294967296, 9223372036854775806, 9223372036854775807}
 			kv := ks[k.R.IntN(len(ks))]
 			if kv < 0 {
 				kv = 0
@@ -964,6 +973,10 @@ func runC20(c *core.Ctx) {
 		w.Goit("init")
 		r := w.Rng
 		secs := []string{"user", "core", "alias", "x-y"}
+		if w.Hist%5 == 2 {
+			// section names that begin or end with the characters that frame a section header
+			secs = append(secs, "[user]", "x]", "[y", "a[1]b", "]")
+		}
 		keys := []string{"name", "email", "editor", "k1", "k_2"}
 		nw := 1 + r.IntN(25)
 		// which identity parts get configured, and where
